@@ -32,7 +32,9 @@ LEVEL_TEXT = ("Bounded exhaustive model checking of the real simulator: every ac
               "styles for <=2 blocks; CBlock->SBlock event feedback) is walked through every "
               "transition of the complete graph on its source-value vectors incl. multi-change "
               "bursts in every order, under every rank permutation of the block sets; every "
-              "quiescent state is compared with an independent evaluator.")
+              "quiescent state is compared with an independent evaluator. Plus chains, fans, ladders "
+              "and trees of up to 70 (thorough 130) blocks in three rank orders, checked at the "
+              "moment wait_init() returns and at every idle point.")
 LEVEL_NOTE = ("Quiescence = the virtual loop has nothing ready (simulator waiting on its queue). "
               "Set iteration order is explored as rank permutations (global orders), not per-step "
               "orders. Comparators are fed directly by a Counter; feedback events are plain 'put' "
